@@ -8,6 +8,11 @@
 //!    branch (`Fmt.errorRange` + the hi-doc bound).
 //!  * `fmt.idem`  — generated valid programs × indent {tabs, 2, 4}: `format(format(x)) == format(x)`
 //!    and the second pass is accepted by the `--test` decision of the modelled `main_result`.
+//!    A second, cheaper stream (`stress.*`, fixed point only) aims at the layout engine: programs
+//!    written on ONE line (every bracket group goes through the printer's try-on-one-line logic) or on
+//!    one line with line breaks inside empty bracket pairs / next to brackets, each also wrapped in a
+//!    field, a call and an array behind a name of random length, so that the 100-column limit falls
+//!    on different tokens of the same program.
 //!  * `fmt.main`  — the `jrsonnet-fmt` binary against `FmtMain.run` (Lean) fed with the table of
 //!    in-process `format` results: exit code and stdout for plain / `--test` / `--conv-limit` runs.
 //!  * `fmt.deep`  — the binary on deeply nested input (separate process: stack exhaustion).
@@ -581,6 +586,74 @@ fn layout(rng: &mut Rng, toks: &[String], style: usize) -> String {
 	s
 }
 
+/// layout style "sparse": one line, except that line breaks (one or several) appear inside empty
+/// bracket pairs, behind opening brackets, before closing ones and now and then elsewhere
+fn layout_sparse(rng: &mut Rng, toks: &[String]) -> String {
+	const OPEN: [&str; 3] = ["(", "[", "{"];
+	const CLOSE: [&str; 3] = [")", "]", "}"];
+	let mut s = String::new();
+	for (i, t) in toks.iter().enumerate() {
+		if i > 0 {
+			let prev = toks[i - 1].as_str();
+			let after_open = OPEN.contains(&prev);
+			let before_close = CLOSE.contains(&t.as_str());
+			let p = if after_open && before_close {
+				50
+			} else if after_open || before_close {
+				12
+			} else {
+				2
+			};
+			if rng.below(100) < p {
+				s.push_str(*rng.pick(&["\n", "\n", "\n\n", "\n\n\n", "  \n  "]));
+			} else if after_open && before_close && rng.chance(1, 2) {
+				// glued: `()`
+			} else {
+				s.push(' ');
+			}
+		}
+		s.push_str(t);
+	}
+	s
+}
+
+/// layout style "commented": one line with a comment in every eighth gap (line comments end the line)
+fn layout_commented(rng: &mut Rng, toks: &[String]) -> String {
+	let mut s = String::new();
+	for (i, t) in toks.iter().enumerate() {
+		if i > 0 {
+			if rng.chance(1, 8) {
+				s.push_str(*rng.pick(&COMMENTS));
+			} else {
+				s.push(' ');
+			}
+		}
+		s.push_str(t);
+	}
+	s
+}
+
+/// the program behind a prefix of `pad` columns: as a field value, an argument, an array element
+fn wrap_program(kind: usize, pad: usize, src: &str) -> String {
+	let name = "w".repeat(pad.max(1));
+	match kind {
+		0 => src.to_string(),
+		1 => format!("{{ {name}: {src} }}"),
+		2 => format!("{name}({src})"),
+		_ => format!("[ \"{name}\", {src} ]"),
+	}
+}
+
+fn width_bucket(text: &str) -> &'static str {
+	let w = text.lines().map(|l| l.replace('\t', "   ").chars().count()).max().unwrap_or(0);
+	match w {
+		0..=79 => "0-79",
+		80..=95 => "80-95",
+		96..=100 => "96-100",
+		_ => "101+",
+	}
+}
+
 fn gen_program(rng: &mut Rng, depth: usize, rich: bool) -> Vec<String> {
 	let mut g = Gen { rng, toks: Vec::new(), rich };
 	g.expr(depth);
@@ -791,9 +864,18 @@ impl Ctx {
 
 	/// fixed point for one valid program and one indent setting
 	fn idem(&mut self, gen: &str, src: &str, indent: u8) -> Option<String> {
-		let once = run_format(src, indent);
-		let Out::Ok(f1) = once else {
-			return None;
+		let f1 = match run_format(src, indent) {
+			Out::Ok(f1) => f1,
+			Out::Diag => return None,
+			Out::Panic(m) => {
+				// a panic of the first pass under THIS indent setting (`diag` only runs indent 2)
+				self.bump(&format!("idem.indent{indent}.first-pass-panic"));
+				self.w.case(
+					json!({"op":"fmt.idem","gen":gen,"t":src,"indent":indent,"once":"","size":src.len()}),
+					json!({"res":"panic","twice":"","_pass":1,"_msg":m.chars().take(200).collect::<String>(),"_class":panic_class(&m)}),
+				);
+				return None;
+			}
 		};
 		let twice = run_format(&f1, indent);
 		let (res, f2, msg) = match twice {
@@ -842,17 +924,31 @@ fn lexemes_json(src: &str) -> serde_json::Value {
 	json!(jrsonnet_lexer::Lexer::new(src).map(|l| json!([l.kind.into_raw(), l.text])).collect::<Vec<_>>())
 }
 
-/// Minimal reproductions of the open findings of known_findings.jsonl (text, indent: 0 = tabs).
-/// They run first on every check, so each finding's KNOWN-FINDING line is printed on every run and
-/// a repair (or a change of the defect's shape) is noticed at once.  Found by delta-debugging
-/// generated programs against the finding's own classifier.
-const FINDING_WITNESSES: [(&str, &str, u8); 4] = [
-	// the comment between `local` and its bind is printed before `local` by the first pass and dropped by the second
-	("c20_second_pass_moves_comment", "(local // c\na = 1; a)", 2),
-	("c20_second_pass_moves_comment", "(local # c\na = 1; a)", 0),
-	// a comment in an empty argument list: every pass adds one more blank line after `(` (settles after two)
-	("c20_second_pass_blank_line_after_lparen", "a(/* c */)", 2),
-	("c20_second_pass_blank_line_after_lparen", "a(/* c */)", 4),
+/// Regression corpus: one minimal witness per layout defect repaired so far (the round-4 `fix:`
+/// commits of the formatter; found by delta-debugging generated programs against the formatter as
+/// it was).  They run first on every check, under every indent setting, and must be fixed points.
+const REPAIRED_WITNESSES: [(&str, &str); 21] = [
+	("stale-extent.inline-group-around-forced-break", "{'':1,[{}]:r,[[]]:x[:]|[assert\"\";1]}"),
+	("stale-extent.empty-args-with-blank-lines", "{assert\nsuper,[[{\"k\":@'q'}]](p=[[{foo:10,local  \n  a=[]}[\"a b\"]]],q=assert null;local\n\n\ny=[[]],y=b;y):local y=[],foo={local y(q=\"é\")={},assert[],a:0},x(p=if{[@\"v\"\"w\"]:[]}then@\"p\")=[]>[]{};{},[(2)(\n\n)[:]/$]:y,foo:{[super]:local a()={a:5};null,foo:'t',assert function()[]:foo}}"),
+	("break-in-earlier-group.args", "x(b,r=[\".libsonnet\",x in importbin\"f.libsonnet\"])([@'q'(p,q,r)[101e3],importbin\"f.libsonnet\"]{[\"\"]:''})"),
+	("break-in-earlier-group.args", "x(b,[importbin\"f.libsonnet\"for x in importstr@\"p\"if importbin\"f.libsonnet\"])([@'q'==function()[]]{[\"a\\nb\"]:$,y:@'q'}())"),
+	("break-in-earlier-group.array", "{[[[error\"a\\nb\"for y in{}for a in{}],\"a\\nb\",10(import\"f.libsonnet\")]]:[local a='t';c]for b in[{[5]:1}][y]}"),
+	("group-spans-lines-after-all", "local x = [a, b] + \"aaaaaaaaaaaaaaaaaaaaaaaaaaaaaaaaaaaaaaaaaaaaaaaaaaaaaaaaaaaaaaaaaaaaaaaaaaaaaaaaaaaaaaaaaaaaaaaaaaaaaaaaaaaaaa\"; x"),
+	("group-spans-lines-after-all", "local x = f(a) + \"aaaaaaaaaaaaaaaaaaaaaaaaaaaaaaaaaaaaaaaaaaaaaaaaaaaaaaaaaaaaaaaaaaaaaaaaaaaaaaaaaaaaaaaaaaaaaaaaaaaaaaaaaaaaaa\"; x"),
+	("expanded-args-joined", "{a(p={assert function()local o='';\"\"},r={[{[{}]:b}]:{}}):([]),@\"v\":[[foo{[2. ]:::\"a\\nb\",[$]+:::0,b+:self,[null]:\"a\\nb\"},@'q',x[\"s\":]]for a in a(x)[3]]}"),
+	("args-end-comments", "a(/* c */)"),
+	("args-end-comments", "a()(\n\n// own line\n) tailstrict"),
+	("args-end-comments", "f(a, // d\n b\n\n// c\n)"),
+	("objcomp-end-comments", "{ [a]: 1 for b in c\n// own line\n}"),
+	("objcomp-end-comments", "{ [a]: 1 for b in c\n\n# para\n\n}"),
+	("slice-second-colon-comment", "y[:1:/* c */]"),
+	("local-keyword-comment", "(local // c\na = 1; a)"),
+	("local-keyword-comment", "(local # c\na = 1; a)"),
+	("local-keyword-comment", "f(r = local/* a b */b ( )= { } ; 1)"),
+	("local-keyword-comment", "local\n// own line\nfoo ( p\n)\t=\nfoo;\n10"),
+	("blank-lines-in-brackets", "f(\n\n\n1)"),
+	("blank-lines-in-brackets", "x(\n\n)[:[ ]]"),
+	("blank-lines-in-brackets", "[\n\n]"),
 ];
 
 fn bucket(n: usize) -> &'static str {
@@ -895,10 +991,12 @@ pub fn run(opts: &Opts) {
 	let thorough = opts.thorough();
 	let (n_bytes, n_soup, n_prog, n_mut) = if thorough { (6000, 12000, 2500, 8) } else { (1500, 3000, 500, 4) };
 
-	// ---- fixed corpus: one minimal witness per open finding (always first) ----
-	for (site, src, indent) in FINDING_WITNESSES {
+	// ---- fixed corpus: one minimal witness per repaired layout defect (always first) ----
+	for (defect, src) in REPAIRED_WITNESSES {
 		c.diag("witness", src);
-		c.idem(&format!("witness.{site}"), src, indent);
+		for indent in [0u8, 2, 4] {
+			c.idem(&format!("witness.{defect}"), src, indent);
+		}
 	}
 	// ---- boundary list ----
 	for s in BOUNDARY {
@@ -956,6 +1054,44 @@ pub fn run(opts: &Opts) {
 		}
 	}
 	c.hist.insert("programs.valid".into(), valid);
+
+	// ---- layout stress: the fixed-point clause only (no diagnostics model, no mutants) ----
+	let n_stress = if thorough { 2400 } else { 800 };
+	for i in 0..n_stress {
+		// programs long enough to need more than one line
+		let mut toks = Vec::new();
+		for _ in 0..6 {
+			let depth = 2 + rng.below(3);
+			toks = gen_program(&mut rng, depth, i % 4 == 3);
+			if toks.len() >= 24 {
+				break;
+			}
+		}
+		let (style, src) = match i % 5 {
+			0 | 2 => ("line", layout(&mut rng, &toks, 0)),
+			1 | 3 => ("sparse", layout_sparse(&mut rng, &toks)),
+			_ => ("commented", layout_commented(&mut rng, &toks)),
+		};
+		let src = src.trim_end().to_string();
+		for kind in 0..4usize {
+			let pad = if kind == 0 { 0 } else { 1 + rng.below(70) };
+			let text = wrap_program(kind, pad, &src);
+			let indent = [0u8, 2, 4][(i + kind) % 3];
+			match c.idem(&format!("stress.{style}.wrap{kind}"), &text, indent) {
+				Some(once) => {
+					c.bump(&format!("stress.{style}.valid"));
+					c.bump(&format!("stress.widest-line.{}", width_bucket(&once)));
+				}
+				None => {
+					// a syntax error of the generated text (a first-pass panic has been recorded by `idem`)
+					c.bump(&format!("stress.{style}.rejected"));
+					if kind == 0 {
+						break;
+					}
+				}
+			}
+		}
+	}
 
 	// ---- the jrsonnet-fmt binary against FmtMain (Lean) ----
 	if let Some(bin) = fmt_bin() {
